@@ -395,10 +395,24 @@ def trace_of(sseed, kind, perturb=False):
         # tie-heavy scores: the winner among equal scores must not depend on hash ordering
         palette = R.choice([[1], [1, 1, 1, 2, 0.5], [1, 2]]) if kind != "bayes" else [round(R.random() * 10, 3) for _ in range(12)]
         hooks = dict(on_create=noise, on_end=noise) if perturb else {}
+        import time as _time
+        saved_clock = (_time.time, _time.monotonic, _time.perf_counter)
         if perturb:
             noise()
-        tr = run_schedule(o, R, steps=R.randint(8, 40) if kind != "hyperband" else R.randint(30, 90),
-                          score_of=lambda R_, t: float(R_.choice(palette)), outcomes=["C"] * 6 + ["INV", "FAIL"], **hooks)
+            # ... and the wall clock races ahead: every reading is minutes later than the one before
+            jump = [0.0]
+
+            def fast(real):
+                def f():
+                    jump[0] += 97.0
+                    return real() + jump[0]
+                return f
+            _time.time, _time.monotonic, _time.perf_counter = fast(saved_clock[0]), fast(saved_clock[1]), fast(saved_clock[2])
+        try:
+            tr = run_schedule(o, R, steps=R.randint(8, 40) if kind != "hyperband" else R.randint(30, 90),
+                              score_of=lambda R_, t: float(R_.choice(palette)), outcomes=["C"] * 6 + ["INV", "FAIL"], **hooks)
+        finally:
+            _time.time, _time.monotonic, _time.perf_counter = saved_clock
     return [e for e in tr if e[0] == "create"]
 
 
@@ -436,8 +450,8 @@ def run(seed, tier, n=None, subprocs=None, modes=("random", "random", "hyperband
                 c = trace_of(sseed, kind, perturb=True)
                 if a == b and a != c:
                     j = next((j for j, (x, y) in enumerate(zip(a, c)) if x != y), -1)
-                    raise Violation("C12", f"{kind}: the trials issued depend on the process-wide random generators (other code drew from / re-seeded "
-                                           f"`random` and `numpy.random` between the requests): request {j}: {a[j] if j >= 0 else len(a)} vs {c[j] if j >= 0 else len(c)}",
+                    raise Violation("C12", f"{kind}: the trials issued depend on the process-wide random generators or on the wall clock (other code drew from / "
+                                           f"re-seeded `random` and `numpy.random` between the requests, and the clock ran fast): request {j}: {a[j] if j >= 0 else len(a)} vs {c[j] if j >= 0 else len(c)}",
                                     {"tag": "global-rng", "kind": kind})
                 if a != b:
                     j = next((j for j, (x, y) in enumerate(zip(a, b)) if x != y), -1)
